@@ -288,13 +288,15 @@ func c18Names(h []c18Letter) []string {
 
 func init() {
 	explore.Register(&explore.Check{
-		ID:        "C18",
-		Level:     "model_checking",
-		Technique: "exhaustive enumeration of later-traffic histories over message sizes around the 4 KiB allocation granule and the message limit, on a real server whose callbacks retain (without copying) everything they were handed next to a private clone; invariant checked after every message",
-		Rule:      "first phase retains startup parameters (validator + parser), database / user / password, a Query text, a Parse text and two Bind values; then every history of length <= d over 17 (limit 8192) / 16 (limit 1024, below the 4 KiB allocation granule) letters: Query bodies around the granule and the limit, oversized-and-skipped messages of several sizes, two COPY bursts (incl. an oversized CopyData), two Bind batches",
+		ID:          "C18",
+		Level:       "model_checking",
+		Technique:   "exhaustive enumeration of later-traffic histories over message sizes around the 4 KiB allocation granule and the message limit, on a real server whose callbacks retain (without copying) everything they were handed next to a private clone; invariant checked after every message",
+		Rule:        "first phase retains startup parameters (validator + parser), database / user / password, a Query text, a Parse text and two Bind values; then every history of length <= d over 17 (limit 8192) / 16 (limit 1024, below the 4 KiB allocation granule) letters: Query bodies around the granule and the limit, oversized-and-skipped messages of several sizes, two COPY bursts (incl. an oversized CopyData), two Bind batches",
 		Assumptions: []string{"CopyData payload views are not retained: the statement lists query texts, parameter values, client parameters and passwords"},
 		Enumerate:   c18Enumerate,
-		Bounds:      func(tier string) map[string]any { return map[string]any{"history_depth": c18Depth(tier), "letters": []int{17, 16}, "limits": []int{c18Limit, 1024}} },
+		Bounds: func(tier string) map[string]any {
+			return map[string]any{"history_depth": c18Depth(tier), "letters": []int{17, 16}, "limits": []int{c18Limit, 1024}}
+		},
 		RequiredOutcomes: []string{"retained"},
 	})
 }
